@@ -13,6 +13,7 @@ pub mod sidecar;
 pub mod tickets;
 pub mod timeline;
 pub mod vector;
+pub mod worker;
 pub mod world;
 
 use std::path::PathBuf;
@@ -76,6 +77,10 @@ pub fn main() {
     }));
     if std::env::var("MVDRIVE_PHASES").is_ok() {
         memvid_core::verif_hooks::set_phase_sink(Some(|name, enter| eprintln!("PHASE {} {name}", if enter { "enter" } else { "exit " })));
+    }
+    if mode == "c17worker" {
+        worker::main(&args);
+        return;
     }
     let rep = match mode.as_str() {
         "hist" => {
